@@ -66,7 +66,8 @@ class C02(Prop):
     prop_file = "Props/C02.v"
     rule = ("all 33 kinds x addresses x type/version bytes with arbitrary message payloads (envelope); every parameterised request with "
             "boundary values 0,1,254,255 per byte field, 2-byte thermostat values 0,255,256,65535, all 40 schedule kinds with random 7x48 "
-            "bitmaps; bytes taken from Frame.bytes and from a fake transport behind the real FrameWriter.  Non-trivial = bytes were produced; "
+            "bitmaps; bytes taken from Frame.bytes and from a fake transport behind the real FrameWriter; a quarter of the cases again on a frame object "
+            "that was first serialised with other header fields / payload / data and then re-assigned (reused:*).  Non-trivial = bytes were produced; "
             "distinct by case content.")
     assumptions = ["the responses the library can build from data (program version, device available) are covered with the C03 structure check"]
 
@@ -109,11 +110,62 @@ class C02(Prop):
             cases.append({"kind": "request:%d" % tag, "req": req, "rcpt": rng.choice([0x45, 0, 0x51, rng.randrange(256)]),
                           "sender": rng.choice([0x56, rng.randrange(256)]), "etype": rng.choice([48, rng.randrange(256)]),
                           "ever": rng.choice([5, rng.randrange(256)])})
-        return cases
+        # one frame object serialised, then given other header fields / payload / data, and serialised again:
+        # the second serialisation must be that of the fields it has then
+        reused = []
+        for c in cases:
+            if rng.random() >= 0.25:
+                continue
+            d = dict(c)
+            hdr = {"rcpt": rng.choice([0x45, 0, 0x51, rng.randrange(256)]), "sender": rng.choice([0x56, 0x45, rng.randrange(256)]),
+                   "etype": rng.randrange(256), "ever": rng.randrange(256)}
+            which = [k for k in hdr if rng.random() < 0.5] or [rng.choice(list(hdr))]
+            if c["kind"] == "envelope":
+                f = c["f"]
+                pre = {"rcpt": f[1], "sender": f[2], "etype": f[3], "ever": f[4], "payload": list(f[5])}
+                for k in which:
+                    pre[k] = hdr[k]
+                if rng.random() < 0.4:
+                    pre["payload"] = [rng.randrange(256) for _ in range(rng.choice([0, 1, len(f[5]), 7]))]
+            else:
+                pre = {k: c[k] for k in ("rcpt", "sender", "etype", "ever")}
+                for k in which:
+                    pre[k] = hdr[k]
+                if rng.random() < 0.4:
+                    others = [o for o in cases if o["kind"] == c["kind"] and o is not c and
+                              (c["req"][0] not in (0, 1) or o["req"][1] == c["req"][1])]   # same frame class
+                    if others:
+                        pre["req"] = rng.choice(others)["req"]
+            d["pre"] = pre
+            d["kind"] = "reused:" + c["kind"]
+            reused.append(d)
+        return cases + reused
 
     def run_impl(self, case):
         try:
-            if case["kind"] == "envelope":
+            pre = case.get("pre")
+            if pre is not None:
+                # first life of the object
+                if "f" in case:
+                    frame = FI.make_frame(case["f"][0], pre["rcpt"], pre["sender"], pre["etype"], pre["ever"], pre["payload"])
+                else:
+                    frame = build_request(pre.get("req", case["req"]), pre["rcpt"], pre["sender"], pre["etype"], pre["ever"])
+                first = frame.bytes
+                vloop.run(_write_through, frame)
+                assert first
+                # second life: plain attribute assignment and the message / data setters
+                if "f" in case:
+                    f = case["f"]
+                    frame.recipient, frame.sender, frame.econet_type, frame.econet_version = FI.addr(f[1]), FI.addr(f[2]), f[3], f[4]
+                    if list(f[5]) != list(pre["payload"]):
+                        frame.message = bytearray(f[5])
+                else:
+                    frame.recipient, frame.sender = FI.addr(case["rcpt"]), FI.addr(case["sender"])
+                    frame.econet_type, frame.econet_version = case["etype"], case["ever"]
+                    if "req" in pre:
+                        fresh = build_request(case["req"], case["rcpt"], case["sender"], case["etype"], case["ever"])
+                        frame.data = fresh._data
+            elif case["kind"] == "envelope":
                 frame = FI.make_frame(*case["f"])
             else:
                 frame = build_request(case["req"], case["rcpt"], case["sender"], case["etype"], case["ever"])
@@ -124,14 +176,14 @@ class C02(Prop):
             return {"error": type(e).__name__}
 
     def model_many(self, cases):
-        env = [c for c in cases if c["kind"] == "envelope"]
-        rq = [c for c in cases if c["kind"] != "envelope"]
+        env = [c for c in cases if "f" in c]
+        rq = [c for c in cases if "f" not in c]
         r_env = model.call_many("frame_bytes", [c["f"] for c in env])
         r_rq = model.call_many("req_bytes", [[c["req"], c["rcpt"], c["sender"], c["etype"], c["ever"]] for c in rq])
         it_e, it_r = iter(r_env), iter(r_rq)
         out = []
         for c in cases:
-            r = next(it_e) if c["kind"] == "envelope" else next(it_r)
+            r = next(it_e) if "f" in c else next(it_r)
             out.append({"bytes": r[0], "via_writer_equal": True} if r else {"error": "model:None"})
         return out
 
@@ -139,8 +191,8 @@ class C02(Prop):
         return b if "bytes" in b else {"error": True}
 
     def spec_many(self, cases, behaviours):
-        env = [(c, b) for c, b in zip(cases, behaviours) if c["kind"] == "envelope"]
-        rq = [(c, b) for c, b in zip(cases, behaviours) if c["kind"] != "envelope"]
+        env = [(c, b) for c, b in zip(cases, behaviours) if "f" in c]
+        rq = [(c, b) for c, b in zip(cases, behaviours) if "f" not in c]
         r_env = model.call_many("P02_env", [[c["f"], bytes(b.get("bytes", []))] for c, b in env])
         ok_env = model.call_many("tx_ok", [c["f"] for c, b in env])
         r_rq = model.call_many("P02_req", [[c["req"], c["rcpt"], c["sender"], c["etype"], c["ever"], bytes(b.get("bytes", []))]
@@ -149,7 +201,7 @@ class C02(Prop):
         it_e, it_r = iter(zip(r_env, ok_env)), iter(zip(r_rq, ok_rq))
         out = []
         for c, b in zip(cases, behaviours):
-            r, ok = next(it_e) if c["kind"] == "envelope" else next(it_r)
+            r, ok = next(it_e) if "f" in c else next(it_r)
             if not ok:
                 out.append(True)       # outside the property's domain (not admissible field values)
             else:
